@@ -25,9 +25,20 @@ PLAN = {
     "C01": list(_ALL),
     "C20": list(_ALL),
 }
+_W = ("W-queries of this family use uninterpreted leaves WITH MATCH HINTS: every query runs two passes with the same "
+      "number of leaf calls; pass 1 logs (arguments, result) of every call, the k-th call of pass 2 is constrained against "
+      "exactly one logged call (equal arguments => equal result when both passes run the same function; the inverse "
+      "relation of the leaf lemma when pass 2 undoes pass 1).  Every assumed implication holds for the real leaves whatever "
+      "the pairing, so a wrong pairing can only produce a spurious counterexample (caught by native replay), never a false proof")
 ASSUMPTIONS = {
     "C10": [
-        "RC5 is checked for the listed concrete instantiations RC5<W,R,B> (type-level generic code: one harness set per instantiation); rounds/round trips range over every key table, key schedules over every key of length B",
-        "Threefish W-queries: mix / inv_mix are an uninterpreted keyed bijection shared with the oracle (leaf lemmas threefish_leaf_*)",
+        "RC5 is checked for twelve concrete instantiations RC5<W,R,B> (type-level generic code: one harness set per instantiation: the six of rc5/tests/mod.rs, 8/0/1, 16/1/3, 32/12/5, 64/24/9, 128/28/17, 32/255/7) plus RC5<u32,U12,U0>; rounds / round trips range over EVERY key table (superset of all keys), key expansion over every key of length B",
+        "RC5: leaves = the four Word operations (wrapping_add, wrapping_sub, rotate_left, rotate_right) of each word type, tied to the oracle's arithmetic mod 2^w by rc5_leaf_ops_<w> for all arguments; direct key-expansion queries run the oracle on the real leaves (same gate structure on both sides)",
+        "Speck 96/128-bit blocks: round_function / inverse_round_function uninterpreted (leaf lemmas speck_leaf_round, speck_leaf_inverse); 32..64-bit blocks are direct queries",
+        "Threefish: mix / inv_mix uninterpreted (leaf lemma threefish_leaf_mix); byte vs u64 entry points and round trips on an arbitrary subkey table (superset of every key and tweak); key schedule direct",
+        "GIFT-128: the fixsliced code is compared with the bit-level specification per quintuple of rounds through packing / unpacking (proved mutually inverse bijections), for every key with the REAL precompute_rkeys; encrypt_block / decrypt_block == the eight quintuples with quintuple_round uninterpreted",
+        _W,
     ],
+    "C01": [_W],
+    "C20": ["RC5 rotate_left / rotate_right with every data-dependent count of every word type: rc5_leaf_ops_<w> (all x, all n); Speck rotates of 24/48-bit words in u32/u64 carriers: speck_leaf_round / speck_leaf_inverse incl. garbage above bit n; GIFT ror and nibble/byte/half rotates: every gift_* harness runs them on symbolic data"],
 }
